@@ -183,7 +183,7 @@ fn run_norm(t: &[&str]) -> String {
                 _ => DataType::FixedSizeBinary(w as i32),
             };
             let n = buf.len() / w;
-            let child = make_array(ArrayData::builder(dt).len(n).add_buffer(Buffer::from_vec(buf)).build().unwrap());
+            let child = make_array(ArrayData::builder(dt).len(n).add_buffer(Buffer::from(buf)).build().unwrap());
             if var & 1 == 0 {
                 hex(&body_buffers(child.slice(off, len))[1])
             } else {
@@ -390,6 +390,11 @@ fn run_dict(t: &[&str]) -> String {
     let (msgs, _, err) = walk(&bytes[start..]);
     assert!(!err);
     let mut wire = vec![];
+    let wire_schema = {
+        let m0 = &msgs[0];
+        let msg = arrow_ipc::root_as_message(&bytes[start + m0.meta.0..start + m0.meta.0 + m0.meta.1]).unwrap();
+        arrow_ipc::convert::fb_to_schema(msg.header_as_schema().unwrap())
+    };
     for m in &msgs {
         let meta = &bytes[start + m.meta.0..start + m.meta.0 + m.meta.1];
         let msg = arrow_ipc::root_as_message(meta).unwrap();
@@ -403,7 +408,7 @@ fn run_dict(t: &[&str]) -> String {
             if d.isDelta() {
                 scratch.insert(d.id(), Arc::new(Int32Array::from(Vec::<i32>::new())));
             }
-            arrow_ipc::reader::read_dictionary(&body, d, &schema, &mut scratch, &msg.version()).unwrap();
+            arrow_ipc::reader::read_dictionary(&body, d, &wire_schema, &mut scratch, &msg.version()).unwrap();
             let vals = scratch[&d.id()].as_primitive::<Int32Type>();
             let v: Vec<String> = vals.iter().map(|x| x.map(|x| x.to_string()).unwrap_or("n".into())).collect();
             wire.push(format!("d{}:{}:{}", d.id(), if d.isDelta() { 1 } else { 0 }, dots(&v)));
@@ -521,24 +526,29 @@ fn field(rng: &mut Rng, name: &str, dt: DataType) -> Field {
     Field::new(name, dt, true).with_metadata(gen_meta(rng))
 }
 
+fn tfield(rng: &mut Rng, name: &str, depth: usize) -> Field {
+    let t = gen_type(rng, depth);
+    field(rng, name, t)
+}
+
 fn gen_type(rng: &mut Rng, depth: usize) -> DataType {
     let leaves = leaf_types();
     if depth == 0 || rng.chance(2, 5) {
         return rng.pick(&leaves).clone();
     }
     match rng.below(12) {
-        0 => DataType::List(Arc::new(field(rng, "item", gen_type(rng, depth - 1)))),
-        1 => DataType::LargeList(Arc::new(field(rng, "element", gen_type(rng, depth - 1)))),
-        2 => DataType::FixedSizeList(Arc::new(field(rng, "item", gen_type(rng, depth - 1))), rng.usize(4) as i32),
+        0 => DataType::List(Arc::new(tfield(rng, "item", depth - 1))),
+        1 => DataType::LargeList(Arc::new(tfield(rng, "element", depth - 1))),
+        2 => DataType::FixedSizeList(Arc::new(tfield(rng, "item", depth - 1)), rng.usize(4) as i32),
         3 => {
             let n = rng.usize(4);
-            DataType::Struct((0..n).map(|i| field(rng, &format!("f{i}"), gen_type(rng, depth - 1))).collect())
+            DataType::Struct((0..n).map(|i| tfield(rng, &format!("f{i}"), depth - 1)).collect())
         }
         4 => {
             let kt = rng.pick(&[DataType::Utf8, DataType::Int32, DataType::LargeBinary]).clone();
             let entries = Field::new(
                 "entries",
-                DataType::Struct(vec![Field::new("key", kt, false), field(rng, "value", gen_type(rng, depth - 1))].into()),
+                DataType::Struct(vec![Field::new("key", kt, false), tfield(rng, "value", depth - 1)].into()),
                 false,
             );
             DataType::Map(Arc::new(entries), false)
@@ -557,16 +567,16 @@ fn gen_type(rng: &mut Rng, depth: usize) -> DataType {
             while matches!(vt, DataType::RunEndEncoded(_, _)) {
                 vt = rng.pick(&leaves).clone();
             }
-            DataType::RunEndEncoded(Arc::new(Field::new("run_ends", rt, false)), Arc::new(field(rng, "values", vt)))
+            DataType::RunEndEncoded(Arc::new(Field::new("run_ends", rt, false)), Arc::new(Field::new("values", vt, true)))
         }
         8 | 9 => {
             let n = 1 + rng.usize(3);
             let ids: Vec<i8> = (0..n).map(|i| (i * 3 + 1) as i8).collect();
-            let fields: Vec<Field> = (0..n).map(|i| field(rng, &format!("u{i}"), gen_type(rng, depth - 1))).collect();
+            let fields: Vec<Field> = (0..n).map(|i| tfield(rng, &format!("u{i}"), depth - 1)).collect();
             DataType::Union(UnionFields::try_new(ids, fields).unwrap(), if rng.bool() { UnionMode::Sparse } else { UnionMode::Dense })
         }
-        10 => DataType::ListView(Arc::new(field(rng, "item", gen_type(rng, depth - 1)))),
-        _ => DataType::LargeListView(Arc::new(field(rng, "item", gen_type(rng, depth - 1)))),
+        10 => DataType::ListView(Arc::new(tfield(rng, "item", depth - 1))),
+        _ => DataType::LargeListView(Arc::new(tfield(rng, "item", depth - 1))),
     }
 }
 
@@ -590,7 +600,7 @@ fn gen_strings(rng: &mut Rng, n: usize, long: bool) -> Vec<Vec<u8>> {
 
 fn gen_array(rng: &mut Rng, dt: &DataType, n: usize, ctx: &mut Ctx, path: &str) -> ArrayRef {
     if let Some(w) = prim_width(dt) {
-        let data = ArrayData::builder(dt.clone()).len(n).add_buffer(Buffer::from_vec(rng.bytes(n * w))).nulls(gen_nulls(rng, n)).build().unwrap();
+        let data = ArrayData::builder(dt.clone()).len(n).add_buffer(Buffer::from(rng.bytes(n * w))).nulls(gen_nulls(rng, n)).build().unwrap();
         return make_array(data);
     }
     match dt {
@@ -710,7 +720,8 @@ fn gen_array(rng: &mut Rng, dt: &DataType, n: usize, ctx: &mut Ctx, path: &str) 
                 0 => ctx.pool[path].clone(),
                 1 => arrow_select::concat::concat(&[ctx.pool[path].as_ref()]).unwrap(),
                 2 => {
-                    let extra = gen_array(rng, vt, 1 + rng.usize(3), &mut Ctx { pool: HashMap::new(), evo: 3, batch: 0 }, "x");
+                    let k = 1 + rng.usize(3);
+                    let extra = gen_array(rng, vt, k, &mut Ctx { pool: HashMap::new(), evo: 3, batch: 0 }, "x");
                     arrow_select::concat::concat(&[ctx.pool[path].as_ref(), extra.as_ref()]).unwrap()
                 }
                 _ => gen_array(rng, vt, fresh_len, &mut Ctx { pool: HashMap::new(), evo: 3, batch: 0 }, "x"),
@@ -770,7 +781,10 @@ fn gen_array(rng: &mut Rng, dt: &DataType, n: usize, ctx: &mut Ctx, path: &str) 
                         .collect();
                     let children = fields
                         .iter()
-                        .map(|(i, f)| gen_array(rng, f.data_type(), *counts.get(&i).unwrap_or(&0) as usize + rng.usize(2), ctx, &format!("{path}/u{i}")))
+                        .map(|(i, f)| {
+                            let extra = rng.usize(2);
+                            gen_array(rng, f.data_type(), *counts.get(&i).unwrap_or(&0) as usize + extra, ctx, &format!("{path}/u{i}"))
+                        })
                         .collect();
                     Arc::new(UnionArray::try_new(fields.clone(), type_ids.into(), Some(offsets.into()), children).unwrap())
                 }
@@ -851,7 +865,7 @@ fn build_batches(c: &RtCase) -> (SchemaRef, Vec<RecordBatch>, String) {
     let ncols = if rng.chance(1, 10) { 0 } else { 1 + rng.usize(4) };
     let depth = rng.usize(3);
     let mut tags = String::new();
-    let fields: Vec<Field> = (0..ncols).map(|i| field(&mut rng, &format!("c{i}"), gen_type(&mut rng, depth))).collect();
+    let fields: Vec<Field> = (0..ncols).map(|i| tfield(&mut rng, &format!("c{i}"), depth)).collect();
     for f in &fields {
         let s = f.data_type().to_string();
         let head: String = s.chars().take_while(|c| c.is_alphanumeric()).collect();
@@ -1194,7 +1208,8 @@ fn gen_case(rng: &mut Rng) -> (String, String) {
             let w = if rng.bool() { 4 } else { 8 };
             let n = rng.usize(12);
             let offs = gen_offsets(rng, n);
-            let data = rng.bytes(*offs.last().unwrap() + rng.usize(3));
+            let extra = rng.usize(3);
+            let data = rng.bytes(*offs.last().unwrap() + extra);
             let off = rng.usize(n + 1);
             let len = rng.usize(n - off + 1);
             let var = rng.usize(2);
@@ -1207,7 +1222,8 @@ fn gen_case(rng: &mut Rng) -> (String, String) {
         2 | 3 => {
             let w = *rng.pick(&[1usize, 2, 3, 4, 5, 8, 16, 32]);
             let n = rng.usize(14);
-            let buf = rng.bytes(n * w + if rng.chance(1, 3) { rng.usize(w + 1) } else { 0 });
+            let extra = if rng.chance(1, 3) { rng.usize(w + 1) } else { 0 };
+            let buf = rng.bytes(n * w + extra);
             let off = rng.usize(n + 1);
             let len = rng.usize(n - off + 1);
             let var = rng.usize(4);
@@ -1262,7 +1278,8 @@ fn gen_case(rng: &mut Rng) -> (String, String) {
                     tag = "no-eos";
                 }
                 1 => {
-                    bytes.extend(rng.bytes(1 + rng.usize(9)));
+                    let k = 1 + rng.usize(9);
+                    bytes.extend(rng.bytes(k));
                     tag = "trailing";
                 }
                 2 => {
